@@ -105,7 +105,9 @@ def property_on_impl(case, result):
     if res.get('timed_out') or res.get('exit_code') is None:
         return [{'why': 'crawl-did-not-finish', 'detail': {'rc': res.get('rc'), 'stderr': res.get('stderr_tail')}}]
     port = res['port']
-    ref = es.ref_crawl(case, port)
+    # the sequential reference follows each page's links in the order the scraper really produced them (a set iteration
+    # order, an input of the crawl): where admission depends on the page that found a URL first, that order decides
+    ref = es.ref_crawl(case, port, orders=es.observed_orders(case, port, result))
     if ref['failed']:
         return []
     pages = case['meta']['pages']
